@@ -261,10 +261,14 @@ class Recorder:
         elif op == "setSpeed":
             p.send_mobility_command(SetSpeedMobilityCommand(self.num(bitsf(req[1]))))
         elif op == "setRange":
-            ctl = self.controllers.get(id(proto))
-            if ctl is None:
-                ctl = CommunicationController(proto)
-                self.controllers[id(proto)] = ctl
+            ctls = self.controllers.get(id(proto))
+            if ctls is None:
+                # a protocol may hold more than one controller for its node (its own and a helper's); they are
+                # used in turn - the range belongs to the node, not to the controller object
+                ctls = [CommunicationController(proto), CommunicationController(proto)]
+                self.controllers[id(proto)] = ctls
+            self._ctl_turn = getattr(self, "_ctl_turn", 0) + 1
+            ctl = ctls[self._ctl_turn % 2] if self.scn.get("twoControllers", True) else ctls[0]
             ctl.set_transmission_range(self.num(bitsf(req[1])))
         else:
             raise ValueError(f"unknown request {op}")
